@@ -173,6 +173,23 @@ def _parse_tla_value(s):
     return v
 
 
+def parse_prints(out, tag):
+    """All values TLC printed with PrintT(<<tag, ...>>), possibly wrapped over several lines (bracket matching)."""
+    vals, buf = [], None
+    heads = ('<<"%s"' % tag, '<< "%s"' % tag)
+    for line in out.splitlines():
+        t = line.strip()
+        if buf is None:
+            if t.startswith(heads):
+                buf = t
+        else:
+            buf += " " + t
+        if buf is not None and buf.count("<<") == buf.count(">>"):
+            vals.append(_parse_tla_value(buf)[1:])
+            buf = None
+    return vals
+
+
 def _validate_shard(args):
     workdir, module, path, n, env, timeout, cfgname = args
     e = {"TRACE_FILE": path}
@@ -198,6 +215,55 @@ def _validate_shard(args):
     if done[1] != len(bad):
         raise MachineryError("TLC bad-count mismatch for %s" % path)
     return {"bad": bad, "cert": cert, "info": info, "wall": r["wall"]}
+
+
+def _within(tree, node):
+    if tree is node:
+        return True
+    return isinstance(tree, list) and any(_within(c, node) for c in tree)
+
+
+def _corrupt_event(ev, rnd):
+    """A copy of `ev` with ONE observed scalar changed (binding control): prefer a leaf inside an outcome ["v", ...];
+    bools are flipped, ints shifted by one, nucleotide letters rotated.  Returns None when nothing can be changed."""
+    import copy
+
+    ev2 = copy.deepcopy(ev)
+    inside, anywhere = [], []
+
+    def walk(node, in_v, depth):
+        if not isinstance(node, list):
+            return
+        iv = in_v or (len(node) >= 1 and node[0] == "v")
+        for i, c in enumerate(node):
+            if isinstance(c, list):
+                walk(c, iv, depth + 1)
+            elif isinstance(c, bool) or (isinstance(c, int) and not isinstance(c, bool)) or (
+                    isinstance(c, str) and c in ("A", "C", "G", "T")):
+                if depth == 0 and i == 0:
+                    continue
+                (inside if iv else anywhere).append((node, i))
+
+    walk(ev2, False, 0)
+    if not inside and anywhere:
+        # no ["v", ...] outcome in this event shape: results are, by convention, the last fields of the event
+        for j in range(len(ev2) - 1, 0, -1):
+            last = [(nd, i) for (nd, i) in anywhere if (nd is ev2 and i == j) or (nd is not ev2 and _within(ev2[j], nd))]
+            if last:
+                anywhere = last
+                break
+    cands = inside or anywhere
+    if not cands:
+        return None
+    node, i = rnd.choice(cands)
+    c = node[i]
+    if isinstance(c, bool):
+        node[i] = not c
+    elif isinstance(c, int):
+        node[i] = c + 1
+    else:
+        node[i] = {"A": "C", "C": "G", "G": "T", "T": "A"}[c]
+    return ev2
 
 
 class Check:
@@ -260,7 +326,7 @@ class Check:
 
     # ---------------------------------------------------------------- batch trace validation (code -> spec)
     def validate(self, module, events, shard=4000, env=None, timeout=3000, label="", keyfn=None, describe=None,
-                 cfg=None):
+                 cfg=None, corrupt=None):
         """events: list of JSON-able arrays.  Returns list of (event, clause).  Violations are registered."""
         if not events:
             return []
@@ -301,7 +367,44 @@ class Check:
             key = keyfn(ev, clause) if keyfn else None
             self.report(module, ev, clause, key, describe)
         self.last_certs = certs
+        self._binding_control(module, events, {i for i, _ in bad_all}, env, timeout, cfg, label, corrupt=corrupt)
         return out
+
+    def _binding_control(self, module, events, bad_idx, env, timeout, cfg, label, n=24, corrupt=None):
+        """Binding demonstration: accepted events with one observed scalar corrupted must be rejected by the same trace
+        specification.  A specification that accepts every corrupted event constrains nothing: machinery failure."""
+        import random as _random
+
+        rnd = _random.Random(self.seed * 7919 + len(events))
+        ok_idx = [i for i in range(len(events)) if i not in bad_idx and not (events[i] and events[i][0] in ("cert", "certpairs"))]
+        if len(ok_idx) < 4:
+            return
+        rec = self.extra.setdefault("binding_control", {})
+        for attempt in range(3):
+            picks = rnd.sample(ok_idx, min(n, len(ok_idx)))
+            import copy as _copy
+
+            cfn = (lambda e, r: corrupt(_copy.deepcopy(e), r)) if corrupt else _corrupt_event
+            cor = [c for c in (cfn(events[i], rnd) for i in picks) if c is not None]
+            if not cor:
+                return
+            self._shard_no += 1
+            path = os.path.join(self.dir, "traces", "%s_%s_binding_%05d.ndjson" % (module, label or "t", self._shard_no))
+            with open(path, "w") as f:
+                for ev in cor:
+                    f.write(json.dumps(ev, separators=(",", ":")) + "\n")
+            try:
+                res = _validate_shard((self.dir, module, path, len(cor), env, timeout, cfg))
+            except MachineryError:
+                continue  # a corrupted event may be outside the domain of the operators: draw again
+            k = "%s/%s" % (module, label or "t")
+            rec[k] = {"corrupted_events": len(cor), "rejected": len(res["bad"]),
+                      "clauses": sorted({b[1] for b in res["bad"]})[:12]}
+            if res["bad"]:
+                return
+        if rec.get("%s/%s" % (module, label or "t"), {}).get("rejected") == 0:
+            raise MachineryError("binding control: %s accepted every corrupted event in 3 draws (%s)" % (module, label))
+        rec["%s/%s" % (module, label or "t")] = {"inconclusive": "corrupted events left the domain of the trace operators"}
 
     # ---------------------------------------------------------------- findings
     def report(self, module, ev, clause, key=None, describe=None):
